@@ -187,14 +187,21 @@ def negative_control_mbt(ctx, vec):
         raise core.Broken("negative control: %d of %d corrupted PFB vectors were accepted" % (len(bad) - s["n_disagree"], len(bad)))
 
 
-def negative_control_tv(ctx, trace):
+def negative_control_tv(ctx, trace, rejected=()):
     d = ctx.specdir()
-    lines = read_lines(trace)
-    # a prefix of whole streams
-    cut = [i for i, ln in enumerate(lines[:6000]) if '"ev":"reset"' in ln]
-    if len(cut) < 3:
+    allines = read_lines(trace)
+    # whole streams from the start of the trace, leaving out those the contract already rejects
+    starts = [i for i, ln in enumerate(allines) if '"ev":"reset"' in ln[:40]] + [len(allines)]
+    bad = set(rejected)
+    lines = []
+    for a, b in zip(starts, starts[1:]):
+        if (a + 1) in bad:
+            continue
+        lines += allines[a:b]
+        if len(lines) > 2500:
+            break
+    if len(lines) < 50:
         raise core.Broken("negative control: trace too short")
-    lines = lines[:cut[-1]]
     done = []
     for kind in ("byte", "fill"):
         out = list(lines)
@@ -216,8 +223,8 @@ def negative_control_tv(ctx, trace):
         with open(os.path.join(d, name), "w") as f:
             f.write("\n".join(out) + "\n")
         rej = validate_trace(ctx, name, "trace-negctl-" + kind, strict_first=True, count=False)
-        if not rej or rej[0][0] != hit + 1:
-            raise core.Broken("negative control: corrupted event %d of a PFB trace was not the one rejected (%s)" % (hit + 1, rej[:2]))
+        if [r[0] for r in rej] != [hit + 1]:
+            raise core.Broken("negative control: corrupted event %d of a PFB trace was not the one rejected (%s)" % (hit + 1, rej[:3]))
         done.append({"corrupted_trace": kind, "rejected_as": rej[0][2]})
     ctx.extra.setdefault("negative_controls", []).extend(done)
 
@@ -307,7 +314,7 @@ def run(ctx):
                                    "kinds": info["kinds"], "rejected_streams": len(rej)}
         report_rejects(ctx, path, rej, "TracePFB on vh trace-pfb (%s, seed %d)" % (mode, ctx.seed))
         if mode == "all":
-            negative_control_tv(ctx, path)
+            negative_control_tv(ctx, path, [cur for _, cur, _ in rej])
     ctx.sample("stream 80 02 02 00 00 00 1a b2 (binary, 2 bytes) read with buffers 1,4 => \"1\", \"ab2\"+EOF (or EOF on the next call)")
     ctx.exhaustive = True
 
